@@ -38,6 +38,9 @@ CHECKS = {
  'C15': dict(engine='E3-sched', technique='stateless model checking of real threads under a controlled scheduler: every interleaving with at most k preemptions at line granularity inside shared-state functions (iterative preemption bounding)',
    text='10 scenarios of 2-3 real threads (TypeHint / BeartypeConf singletons, checks and decorations over fresh shared hints, package registrations and beartyping() against lookups, pooled scratch objects) run under a settrace baton scheduler; scheduling points are every line of the 61 mechanically inventoried shared-state functions and every lock acquire (the 7 lock objects beartype owns are replaced by cooperative locks at run time); all schedules with <= 1 preemption (quick) / <= 2 (thorough) are executed; results must equal a sequential outcome, singletons must be identical, no exception, no deadlock.',
    note='Assumes GIL atomicity of a source line that calls no inventoried function, and that functions outside the inventory touch only thread-local or immutable state; free-threaded builds and more than 3 threads are not explored.', ref='5/C15'),
+ 'C04': dict(engine='E1-enum', technique='bounded-exhaustive enumeration of signatures x call shapes with CPython binding of an undecorated twin as reference',
+   text='Every signature with 0-1 (quick) / 0-2 (thorough) parameters of each of the three named kinds plus optional *args/**kwargs, annotated or not, with every legal default placement (defaults are wrong-typed sentinels) is decorated and called with every call shape (positional count 0..P+2 x keyword subsets over parameter names and a surplus name x all-good / one-slot-str / one-slot-None values) under returning and raising bodies; binding, rejection, blamed parameter, run count, argument identity and result identity are compared with the undecorated twin.',
+   note='CPython itself decides binding (inspect.signature.bind is not used); annotation is int throughout.', ref='5/C04'),
 }
 NOT_YET = {}
 for i in range(1, 21):
